@@ -140,6 +140,9 @@ func (sp *HarnessSpec) config(tier string, base Config) Config {
 			c.SchedK, _ = strconv.Atoi(fs[1])
 		}
 	}
+	if v := sp.Ann["bvints"]; len(v) > 0 {
+		c.BVIntsOff = v[0] == "off"
+	}
 	if v := sp.Ann["symindex"]; len(v) > 0 {
 		c.SymIndexFork = v[0] == "fork"
 	}
